@@ -93,7 +93,7 @@ func coqStyle(s pr.ElementStyle) (string, bool) {
 		return t
 	}
 	b := func(v pr.DimOrS) string {
-		if v.S != "" || v.Unit != pr.Px || !finite(v.Value) {
+		if v.S != "" || !finite(v.Value) { // used border width = Style value (unit Scalar), percentages.go:102
 			ok = false
 		}
 		return q(v.Value)
